@@ -31,6 +31,9 @@ func c09Families(quick bool) c09Params {
 				{Name: "error", Space: gen.NewSpace(2, 2, 2, 2, true)},
 				{Name: "error-sugar", Space: gen.NewSpace(2, 2, 2, 2, true), Sugar: true, Limit: 2500},
 				{Name: "error3", Space: gen.NewSpace(3, 2, 2, 2, true), Limit: 300000},
+				{Name: "error-names-builtin", Space: gen.NewSpace(2, 2, 2, 2, true), Limit: 60000, Names: 3},
+				// terminal numbers of two digits beside state numbers of one and two
+				{Name: "error-pad9", Space: gen.NewSpace(2, 2, 2, 2, true), Limit: 60000, Pad: 9},
 			},
 			L: 5, Lpump: 3, Ks: []int{8}, Hooked: false,
 		}
@@ -41,6 +44,9 @@ func c09Families(quick bool) c09Params {
 			{Name: "error-l3", Space: gen.NewSpace(2, 2, 2, 3, true), Limit: 600000},
 			{Name: "error3", Space: gen.NewSpace(3, 2, 2, 2, true), Limit: 600000},
 			{Name: "error-sugar", Space: gen.NewSpace(2, 2, 2, 2, true), Sugar: true, Limit: 60000},
+			{Name: "error-names-builtin", Space: gen.NewSpace(2, 2, 2, 2, true), Names: 3},
+			{Name: "error-pad9", Space: gen.NewSpace(2, 2, 2, 2, true), Pad: 9},
+			{Name: "error3-pad9", Space: gen.NewSpace(3, 2, 2, 2, true), Limit: 300000, Pad: 9},
 		},
 		L: 6, Lpump: 4, Ks: []int{2, 8, 50}, Hooked: true,
 	}
@@ -221,7 +227,6 @@ func c09Explore(b *px.Built, r *px.Runner, fam string, idx int64, prm c09Params,
 	// (every other) generic action returning an Error value or a Token value of
 	// its own making, the verdict, the reductions and the Errors delivered to
 	// @error terms must be what they are with any other result.
-	errName := b.TermNames[1]
 	sig := func(o *px.Outcome) string {
 		var sb strings.Builder
 		fmt.Fprintf(&sb, "ok=%v", o.OK)
@@ -231,7 +236,7 @@ func c09Explore(b *px.Built, r *px.Runner, fam string, idx int64, prm c09Params,
 			}
 			fmt.Fprintf(&sb, " r%d", e.Prod)
 			for i, k := range e.N.Kids {
-				if i < len(b.ProdTerms[e.Prod]) && b.ProdTerms[e.Prod][i] == errName {
+				if int(e.Prod) < len(b.ProdErrAt) && i < len(b.ProdErrAt[e.Prod]) && b.ProdErrAt[e.Prod][i] {
 					if tok, _, ok := r.C.AsError(k); ok {
 						fmt.Fprintf(&sb, "(err#%d)", tok.Idx)
 					} else {
@@ -468,7 +473,7 @@ func tokIndex(g *gen.Grammar, name string) int {
 	}
 	for i, t := range g.Toks {
 		if t == name {
-			return i + 2
+			return i + 2 + g.PadToks
 		}
 	}
 	return -1
